@@ -732,6 +732,14 @@ cannot convert calendric system internally");
 		clo.fst = dt_dtconv(_DAISY, clo.fst);
 		clo.lst = dt_dtconv(_DAISY, clo.lst);
 		clo.ss |= SKIP_SAT | SKIP_SUN;
+	} else if (clo.fst.typ == DT_SEXY && clo.lst.typ == DT_SEXY &&
+		   !__daisy_feasible_p(clo.ite, clo.nite)) {
+		/* an epoch value cannot keep the day of the month across
+		 * several month or year steps (01-31, 02-29, 03-31, ...),
+		 * step through ymd/hms sandwiches, they're converted back
+		 * when printed */
+		clo.fst = dt_dtconv((dt_dttyp_t)DT_YMD, clo.fst);
+		clo.lst = dt_dtconv((dt_dttyp_t)DT_YMD, clo.lst);
 	} else if (dt_sandwich_only_t_p(clo.fst) && argi->nargs < 3U) {
 		*clo.ite = tseq_guess_ite(clo.fst.t, clo.lst.t);
 	}
@@ -755,7 +763,7 @@ increment must not be naught");
 		struct dt_dt_s nxt;
 
 		if (LIKELY(ofmt == NULL)) {
-			tgt = dt_dtconv(tgttyp, tmp);
+			tgt = dt_dtconv(tgttyp, dt_fixup(tmp));
 		}
 		dt_io_write(tgt, ofmt, NULL, '\n');
 
